@@ -171,6 +171,18 @@ func queriesFor(tier string) []*qgen.Query {
 		&qgen.Query{Root: []*qgen.Node{F("items", F("owner", F("items", F("owner", F("name"))))), F("things", F("__typename"))}},
 		&qgen.Query{Root: []*qgen.Node{F("users", F("friend", F("friend", F("friend", F("id"), F("score"))))), F("empty", F("id")), F("nobody", F("id"))}},
 	)
+	// one member fragment spread under two union parents, only one of which selects the union's own __typename
+	// (what one site adds for its members must not reach the other site through the shared fragment)
+	for _, tn := range []*qgen.Node{F("__typename"), FA("t", "__typename")} {
+		frs := []*qgen.Fragment{{Name: "UF", On: "User", Body: []*qgen.Node{F("name")}}, {Name: "IF", On: "Item", Body: []*qgen.Node{F("id")}}}
+		a := FA("a", "things", tn, Spread("UF"), Spread("IF"))
+		b := FA("b", "things", Spread("UF"), Spread("IF"))
+		c := Arg(FA("c", "thing", Spread("UF")), "i", int64(0))
+		d := Arg(FA("d", "thing", tn, Spread("IF"), Spread("UF")), "i", int64(1))
+		for _, pair := range [][]*qgen.Node{{a, b}, {b, a}, {a, c}, {c, a}, {d, b}, {c, d}} {
+			qs = append(qs, &qgen.Query{Root: pair, Frags: frs})
+		}
+	}
 	// one named fragment spread at two sites whose other same-alias selections differ
 	// (a merge at one site must not leak into the other through the shared fragment)
 	subs := [][]*qgen.Node{{F("id"), F("name"), F("age")}, {F("id")}, {F("name"), F("score")}, {F("id"), F("name"), F("age"), F("score"), FA("n2", "name")}}
